@@ -298,10 +298,11 @@ def main(argv=None) -> int:
             if rec.counters.get(c, 0) <= 0:
                 rec.inconclusive.append(f"deciding monitor '{c}' was never evaluated")
 
-    try:
-        write_evidence(ctx, mod, rec, wall, len(fresh), known_hit)
-    except Exception:
-        rec.inconclusive.append("evidence could not be written: " + traceback.format_exc()[-800:])
+    if not a.replay:  # (a replay re-judges one witness; it is not a coverage statement and leaves the evidence file alone)
+        try:
+            write_evidence(ctx, mod, rec, wall, len(fresh), known_hit)
+        except Exception:
+            rec.inconclusive.append("evidence could not be written: " + traceback.format_exc()[-800:])
 
     print(f"[{prop}] tier={ctx.tier} seed={ctx.seed} evaluations={rec.evaluations} "
           f"distinct_nontrivial={len(rec.nontrivial)} wall={wall:.1f}s")
